@@ -753,3 +753,122 @@ package runtime
 //@   ensures len(s) <= 5 ==> uint8(result.scalar >> 40) == 0
 //@   ensures len(s) <= 6 ==> uint8(result.scalar >> 48) == 0
 //@   ensures typeis(result.iface, string) && asType(result.iface, string) == s
+
+// ---- the hash part, seen from the mixed table: assumed frame contracts (the
+// chained hash table itself is stage 2) ----
+//@ func (*hashTable).find
+//@   trusted
+//@   modifies nothing
+//@ func (*hashTable).full
+//@   trusted
+//@   modifies nothing
+//@ func (*hashTable).next
+//@   trusted
+//@   modifies nothing
+//@ func (*hashTable).set
+//@   trusted
+//@   modifies heap(hashTable), heap(hashTableSlot)
+//@ func (*hashTable).reset
+//@   trusted
+//@   modifies heap(hashTable), heap(hashTableSlot)
+//@ func (*hashTable).removeKey
+//@   trusted
+//@   modifies heap(hashTable), heap(hashTableSlot)
+//@ func (*hashTable).grow
+//@   trusted
+//@   modifies heap(hashTable), heap(hashTableSlot)
+//@ func (*hashTable).cleanup
+//@   trusted
+//@   modifies heap(hashTable), heap(hashTableSlot)
+//@ func (*hashTable).classifyIndices
+//@   trusted
+//@   modifies all(idxCountByLen)
+//@   ensures t == nil ==> result == 0
+//@ func (*array).classifyIndices
+//@   trusted
+//@   modifies all(idxCountByLen)
+// Assumed: a table never holds 2^46 or more integer keys (memory), so the array
+// size computed from the key census stays far below the allocation limit.
+//@ func calculateArraySize
+//@   trusted
+//@   modifies nothing
+//@   ensures 0 <= result && result < 70368744177664
+
+// Key normalisation (manual §3.4.3 / §2.1: a float key with an integer value
+// denotes the integer key): what is looked up in, stored into or removed from
+// the hash part is always the normalised key, and integer keys inside the
+// array part never reach the hash part.
+//@ macro keyIsInt(k) = (isInt(k) || (isFloat(k) && spec.floatIsInt(k.AsFloat())))
+//@ macro keyInt(k) = ite(isInt(k), k.AsInt(), int64(spec.floatToInt(k.AsFloat())))
+//@ macro normKey(k, nk) = ((keyIsInt(k) ==> isIntVal(nk, keyInt(k))) && (!keyIsInt(k) ==> nk == k))
+//@ macro tblOK(t) = (t != nil && (t.array != nil ==> arrOK(t.array)))
+
+//@ func (*mixedTable).get
+//@   prop C03
+//@   arith int
+//@   requires tblOK(t) && valueOK(k)
+//@   modifies nothing
+//@   assert_before_call find: normKey(k, $k) && (keyIsInt(k) ==> !inArr(t.array, keyInt(k)))
+//@   ensures keyIsInt(k) && inArr(t.array, keyInt(k)) ==> result == t.array.values[keyInt(k)-1]
+
+//@ func (*mixedTable).reset
+//@   prop C03
+//@   arith int
+//@   requires tblOK(t) && valueOK(k) && !v.IsNil()
+//@   modifies everything()
+//@   assert_before_call reset: normKey(k, $k) && $v == v && (keyIsInt(k) ==> !inArr(t.array, keyInt(k)))
+//@   ensures keyIsInt(k) && inArr(old(t.array), keyInt(k)) ==> wasSet == !old(t.array.values[keyInt(k)-1]).IsNil()
+
+//@ func (*mixedTable).remove
+//@   prop C03
+//@   arith int
+//@   requires tblOK(t) && valueOK(k)
+//@   modifies everything()
+//@   assert_before_call removeKey: normKey(k, $k) && (keyIsInt(k) ==> !inArr(t.array, keyInt(k)))
+//@   ensures keyIsInt(k) && inArr(old(t.array), keyInt(k)) ==> wasSet == !old(t.array.values[keyInt(k)-1]).IsNil() && t.array.values[keyInt(k)-1].IsNil()
+
+// Growing keeps the border invariant of the array part: only non-nil values are
+// moved into it.
+//@ func (*mixedTable).grow
+//@   prop C03
+//@   arith int
+//@   requires tblOK(t)
+//@   modifies everything()
+//@   ensures tblOK(t)
+//@   loop 1: invariant array != nil && arrOK(array) && t.hashTable != nil && -1 <= rangeindex && rangeindex < len(t.hashTable.slots)
+
+// A bigger array part with the same contents.
+//@ func (*array).grow
+//@   prop C03
+//@   arith int
+//@   requires a != nil ==> arrOK(a) && len(a.values) <= sz
+//@   requires 0 <= sz && sz < 140737488355328
+//@   modifies a.values
+//@   ensures result != nil && arrOK(result) && len(result.values) == sz
+//@   ensures a != nil ==> result == a && result.len == old(a.len) && forall(j, 0, old(len(a.values)), result.values[j] == old(a.values[j]))
+
+//@ func (*mixedTable).insert
+//@   prop C03
+//@   arith int
+//@   requires tblOK(t) && valueOK(k) && !v.IsNil()
+//@   modifies everything()
+//@   assert_before_call set: normKey(k, $k)
+//@   assert_before_call set: $v == v
+
+// The length reported from the array part is a border of it.
+//@ func (*mixedTable).len
+//@   prop C03
+//@   arith int
+//@   requires tblOK(t)
+//@   modifies nothing
+//@   ensures t.array != nil && t.array.len < len(t.array.values) ==> result == t.array.len && (result == 0 || !t.array.values[result-1].IsNil()) && t.array.values[result].IsNil()
+//@   loop 1: invariant l >= 0
+
+// A traversal step: array positions first (in order), then the hash part from
+// its beginning; the key handed to the hash part is normalised.
+//@ func (*mixedTable).next
+//@   prop C03
+//@   arith int
+//@   requires tblOK(t) && valueOK(k)
+//@   modifies nothing
+//@   assert_before_call (*hashTable).next#3: !k.IsNil() ==> normKey(k, $k)
